@@ -11,6 +11,7 @@ type genStats struct {
 	mut, rebuild, share int
 	quirk               bool // some vector held a stored zero or a value-less index key
 	bad                 int
+	pendFrom            int // IteratorFrom started with a pending zero as the first index key at/after the start
 }
 
 func (s genStats) nontrivial() bool {
@@ -187,6 +188,60 @@ func hasDupNonzero(o VecObs) bool {
 	return false
 }
 
+// vecPendingKeys: the index keys of a sparse vector that read zero (a stored zero or a value-less
+// key): what skip() has to delete before delivering a position
+func vecPendingKeys(ob VecObs) []int64 {
+	val := map[int64]int64{}
+	has := map[int64]bool{}
+	for i, k := range ob.Keys {
+		has[k] = true
+		val[k] = ob.Vals[i]
+	}
+	var r []int64
+	for _, k := range ob.Index {
+		if !has[k] || val[k] == 0 {
+			r = append(r, k)
+		}
+	}
+	return r
+}
+
+// vecStartsOnPending: the first index key at or after q reads zero
+func vecStartsOnPending(ob VecObs, q int64) bool {
+	pk := map[int64]bool{}
+	for _, k := range vecPendingKeys(ob) {
+		pk[k] = true
+	}
+	for _, k := range ob.Index {
+		if k >= q {
+			return pk[k]
+		}
+	}
+	return false
+}
+
+// vecAimFrom: a start q <= p such that the pending key p is the first index key at or after q
+func vecAimFrom(r *Rng, ob VecObs) (int64, bool) {
+	pk := vecPendingKeys(ob)
+	if len(pk) == 0 {
+		return 0, false
+	}
+	p := pk[r.Intn(len(pk))]
+	lo := int64(0)
+	for _, k := range ob.Index {
+		if k < p {
+			lo = k + 1
+		}
+	}
+	switch r.Intn(3) {
+	case 0:
+		return p, true
+	case 1:
+		return lo, true
+	}
+	return lo + int64(r.Intn(int(p-lo)+1)), true
+}
+
 func genOperand(r *Rng, w *World, t int, n int) (int, []int64) {
 	// a sparse vector of the same dimension if there is one, else dense
 	var cand []int
@@ -215,6 +270,17 @@ func genCase(r *Rng, tn string, malformed bool, cw *CaseWriter) (Case, genStats)
 	w := &World{Type: tn}
 	c := Case{Type: tn}
 	emit := func(o Op) {
+		if o.Op == "IterFrom" && !o.Bad && o.T < len(w.V) && !w.Hung {
+			pre, _ := w.observe()
+			if vecStartsOnPending(pre[o.T], o.I) {
+				st.pendFrom++
+				if cw != nil {
+					cw.Count("from:starts-on-pending-zero")
+				}
+			} else if cw != nil {
+				cw.Count("from:other")
+			}
+		}
 		k, p := w.execOne(o)
 		obs, h := w.observe()
 		c.Ops = append(c.Ops, o)
@@ -280,10 +346,13 @@ func genCase(r *Rng, tn string, malformed bool, cw *CaseWriter) (Case, genStats)
 			return []int64{-1, int64(d), int64(d) + 2, -3}[r.Intn(4)]
 		}
 		//            0  1   2  3  4  5  6  7  8  9 10 11 12 13 14 15 16 17 18 19 20 21 22 23
-		wts := []int{1, 3, 14, 3, 5, 2, 3, 5, 7, 6, 5, 5, 3, 2, 2, 3, 0, 2, 2, 5, 3, 2, 2, 3, 2}
+		wts := []int{1, 3, 14, 3, 5, 2, 3, 5, 7, 6, 5, 5, 3, 2, 2, 3, 0, 2, 2, 5, 3, 3, 2, 3, 2, 4}
 		if smallMode {
-			//             0  1   2  3  4  5  6  7  8  9 10 11 12 13 14 15 16 17 18 19 20 21 22 23 24
-			wts = []int{1, 3, 12, 1, 2, 1, 4, 3, 2, 1, 5, 5, 4, 3, 2, 1, 0, 1, 1, 9, 3, 2, 7, 2, 1}
+			//             0  1   2  3  4  5  6  7  8  9 10 11 12 13 14 15 16 17 18 19 20 21 22 23 24 25
+			wts = []int{1, 3, 12, 1, 2, 1, 4, 3, 2, 1, 5, 5, 4, 3, 2, 1, 0, 1, 1, 9, 3, 3, 7, 2, 1, 6}
+		}
+		if d <= 0 {
+			wts[25] = 0
 		}
 		if len(w.V) >= maxVecs {
 			wts[0], wts[11], wts[12], wts[13], wts[14], wts[22] = 0, 0, 0, 0, 0, 0
@@ -451,7 +520,13 @@ func genCase(r *Rng, tn string, malformed bool, cw *CaseWriter) (Case, genStats)
 		case 20:
 			emit(Op{Op: "IterPart", T: t, I: int64(r.Range(0, 4))})
 		case 21:
-			emit(Op{Op: "IterFrom", T: t, I: int64(r.Range(-1, d+1))})
+			// iteration started in the middle: two times out of three aimed at a pending zero (start q <= p,
+			// p a stored zero or value-less index key and the first index key at or after q)
+			if q, ok := vecAimFrom(r, obs[t]); ok && r.Intn(3) != 0 {
+				emit(Op{Op: "IterFrom", T: t, I: q, B: r.Bool()})
+			} else {
+				emit(Op{Op: "IterFrom", T: t, I: int64(r.Range(-1, d+1)), B: r.Bool()})
+			}
 		case 22:
 			emit(Op{Op: "Clone", T: t})
 		case 23:
@@ -464,6 +539,68 @@ func genCase(r *Rng, tn string, malformed bool, cw *CaseWriter) (Case, genStats)
 			u, l := genOperand(r, w, t, d)
 			x, l2 := genOperand(r, w, t, d)
 			emit(Op{Op: "Joint3", T: t, U: u, L: l, W: x, L2: l2})
+		case 25:
+			// compound: create a pending zero on vector t (one of the origins below), then start an
+			// iteration at or before it (no full iteration in between)
+			var stored, empty []int64
+			inIdx := map[int64]bool{}
+			for _, key := range obs[t].Index {
+				inIdx[key] = true
+			}
+			for i, key := range obs[t].Keys {
+				if obs[t].Vals[i] != 0 {
+					stored = append(stored, key)
+				}
+			}
+			for q := int64(0); q < int64(d); q++ {
+				if !inIdx[q] {
+					empty = append(empty, q)
+				}
+			}
+			cnt := func(k string) {
+				if cw != nil {
+					cw.Count(k)
+				}
+			}
+			switch origin := r.Intn(5); {
+			case origin == 0 && len(stored) > 0: // zero written through At().SetFloat64(0)
+				emit(Op{Op: "SetAt", T: t, I: stored[r.Intn(len(stored))], X: 0})
+				cnt("pending:setzero")
+			case origin <= 1 && len(empty) > 0: // an entry merely created by At()
+				emit(Op{Op: "At", T: t, I: empty[r.Intn(len(empty))]})
+				cnt("pending:at")
+			case origin == 2 && len(stored) > 0: // Reset
+				emit(Op{Op: "Reset", T: t})
+				cnt("pending:reset")
+			case origin == 3 && len(stored) > 0: // arithmetic: x -> x*0
+				if r.Bool() {
+					emit(Op{Op: "MapMul", T: t, X: 0})
+				} else {
+					emit(Op{Op: "MapSetMul", T: t, X: 0})
+				}
+				cnt("pending:arith")
+			case len(stored) > 0: // Set(dense) writing zeros into stored entries
+				l := vals(r, d)
+				for _, q := range stored {
+					if r.Bool() {
+						l[q] = 0
+					}
+				}
+				emit(Op{Op: "SetV", T: t, U: -1, L: l})
+				cnt("pending:setdense")
+			default:
+				emit(Op{Op: "At", T: t, I: int64(r.Intn(d))})
+				cnt("pending:at")
+			}
+			st.mut++
+			if !w.Hung {
+				post, _ := w.observe()
+				q, ok := vecAimFrom(r, post[t])
+				if !ok {
+					q = int64(r.Intn(d))
+				}
+				emit(Op{Op: "IterFrom", T: t, I: q, B: r.Bool()})
+			}
 		}
 	}
 	// final full iteration of every vector (mutating: skip() runs on the vector itself)
